@@ -1,5 +1,5 @@
 """C02 - credulous acceptance answers match the semantics (narrow clauses only)"""
-from . import accept, cli, provenance
+from . import accept, cli, provenance, progress
 
 
 def run(ctx):
@@ -12,6 +12,8 @@ def run(ctx):
     provenance.rule_literal_provenance(ctx, 'credulous')
     provenance.rule_fresh_solver_per_encoding(ctx, 'credulous')
     provenance.rule_range_encoding(ctx)
+    progress.rule_blocking(ctx)
+    progress.rule_selector_freshness(ctx)
     accept.rule_stage_layering(ctx, 'credulous')
     ctx.assume("rustc's MIR and resolved callees; the tables stated in the property (DC-PR through the complete solver)")
     return (
